@@ -20,7 +20,7 @@ pub fn meta() -> Meta {
 backslashes, empty, maximal) in every name- and string-bearing field of every type, every string of up to 4 (quick) / 5 (thorough) bytes over {k = \" \\ ; space NUL C3 A9 FF} as the strings of TXT and HINFO records, plus accepted C01 corpus/havoc cases; every public observer is applied to \
 every part under the panic recorder: {:?}/{:#?}/{} formatting of Packet, Question, ResourceRecord, RData, Name, Label, CharacterString; clone; into_owned; \
 Hash; ==; TXT::attributes / long_attributes / String::try_from; String::try_from(CharacterString); match_qtype/match_qclass of every record against every \
-question; is_subdomain_of / without / is_link_local / get_labels / iter / len on name pairs. non-trivial = accepted input containing at least one non-UTF-8 \
+question; is_subdomain_of / without / is_link_local / get_labels / iter / len on name pairs; family vocab-names: the same on hand-assembled responses whose names are 1..4 labels drawn from the labels real zones use (local, arpa, in-addr, ip6, _tcp, _services, _dns-sd, b, db, lb, ...). non-trivial = accepted input containing at least one non-UTF-8 \
 or control byte in a label or string; distinct = hash of bytes",
         assumptions: &["what the rendering looks like is free; only panics are judged"],
         exhaustive: false,
@@ -330,6 +330,51 @@ pub fn run(ctx: &mut Ctx) {
             base += total;
         }
         ctx.sample("txt-small", || json!({"alphabet": "k = \" \\ ; space NUL C3 A9 FF", "max_len": lmax}));
+    }
+    // names made of the labels real zones use (special-use and infrastructure names), 1..4 labels each, as question name, owner,
+    // PTR target and SRV target of a small hand-assembled response; every inspection runs on them and on their pairs
+    if ctx.family_active("vocab-names") {
+        let n = super::c17::VOCAB.len() as u64;
+        let total = n + n * n + n * n * n + n * n * n * n;
+        let step = if ctx.slow_tool { 9973 } else { tier.pick(11u64, 1u64) };
+        let mut cur = 0u64;
+        while cur < total {
+            let idx = cur;
+            cur += step;
+            if !ctx.take("vocab-names", idx) {
+                continue;
+            }
+            if ctx.stop("vocab-names") {
+                break;
+            }
+            let wire = |k: u64| -> Vec<u8> {
+                let mut v = Vec::new();
+                for l in super::c17::vocab_name(k % total).unwrap() {
+                    v.push(l.len() as u8);
+                    v.extend_from_slice(l.as_bytes());
+                }
+                v.push(0);
+                v
+            };
+            let (n1, n2, n3) = (wire(idx), wire(idx / n), wire(idx.wrapping_mul(31) + 7));
+            let mut b = vec![(idx >> 8) as u8, idx as u8, 0x84, 0, 0, 1, 0, 2, 0, 0, 0, 0];
+            b.extend_from_slice(&n1);
+            b.extend_from_slice(&[0, 12, 0, 1]);
+            b.extend_from_slice(&n2);
+            b.extend_from_slice(&[0, 12, 0, 1, 0, 0, 0, 9]);
+            b.extend_from_slice(&(n1.len() as u16).to_be_bytes());
+            b.extend_from_slice(&n1);
+            b.extend_from_slice(&n1);
+            b.extend_from_slice(&[0, 33, 0x80, 1, 0, 0, 0, 9]);
+            b.extend_from_slice(&(n3.len() as u16 + 6).to_be_bytes());
+            b.extend_from_slice(&[0, 0, 0, 0, 0, 80]);
+            b.extend_from_slice(&n3);
+            ctx.add("well_known_label_messages", 1);
+            if !observe_all(ctx, "vocab-names", idx, &b) {
+                ctx.count("vocab_generated_but_rejected");
+            }
+        }
+        ctx.sample("vocab-names", || json!({"labels": super::c17::VOCAB}));
     }
     let per_type = if ctx.slow_tool { 1 } else { tier.pick(10u64, 100u64) };
     for ci in 0..42 * per_type {
